@@ -1,0 +1,26 @@
+//! Verification-only pause points (feature `__verif_hooks`).
+//!
+//! Not part of the public API. With the feature off this module does not
+//! exist; with the feature on and no callback installed, a pause point is a
+//! single uncontended read of a static.
+
+use std::sync::RwLock;
+
+/// Signature of the callback invoked at every pause point.
+pub type PauseHook = fn(&'static str);
+
+static HOOK: RwLock<Option<PauseHook>> = RwLock::new(None);
+
+/// Install (or remove) the process-global pause callback.
+pub fn set_pause_hook(hook: Option<PauseHook>) {
+    *HOOK.write().unwrap_or_else(|e| e.into_inner()) = hook;
+}
+
+/// Called by instrumented library code when it reaches a named point.
+#[inline]
+pub fn pause(point: &'static str) {
+    let hook = *HOOK.read().unwrap_or_else(|e| e.into_inner());
+    if let Some(hook) = hook {
+        hook(point);
+    }
+}
